@@ -484,16 +484,18 @@ def main():
                                                   "UNTIL, BYWEEKNO in -51..51; start year >= 2; r_y + n*interval <= 9999",
                 "C01_rrule_iter_correct_easter_partial": "same family with BYEASTER, all passes within 1583..4099",
                 "C01_rrule_iter_correct_count_partial": "same family with COUNT and BYEASTER (no UNTIL)",
-                "C01_rrule_iter_correct_yearly_partial": "same family with COUNT, UNTIL and BYEASTER"},
+                "C01_rrule_iter_correct_yearly_partial": "same family with COUNT, UNTIL and BYEASTER",
+                "C01_rrule_iter_correct_yearly_all_fuel_partial": "same family without BYEASTER: every fuel, no bound "
+                                                                  "on the number of passes (MAXYEAR end included)"},
             "not_proved_correspondence_only": [
                 "rrule_iter_correct (model = spec for every rule in spec_wf): FALSE of the code (4 refuted "
                 "witnesses); under guards proved only for the family of C01_rrule_iter_correct_yearly_partial "
                 "(YEARLY, no BYSETPOS / nth weekday; COUNT and UNTIL allowed; BYWEEKNO within -51..51, BYEASTER "
-                "within 1583..4099, start year >= 2, passes within year 9999)",
+                "within 1583..4099 (then passes within that range), start year >= 2; without BYEASTER for every "
+                "number of passes incl. the MAXYEAR end)",
                 "day_filter_correct for YEARLY+BYMONTH rules with nth-weekday BYDAY (mask proved, layer 3, not "
                 "plugged into C01_day_filter_correct_*), and for the 7-day extension of WEEKLY rules",
-                "the loop theorem for the other six frequencies, for nth weekdays and BYSETPOS, and for the MAXYEAR "
-                "end; see notes/rr.md",
+                "the loop theorem for the other six frequencies, for nth weekdays and BYSETPOS; see notes/rr.md",
                 "MONTHLY and WEEKLY day sets (mdayset, wdayset), BYSETPOS selection, BYWEEKNO/nth/easter "
                 "clauses inside the filter",
                 "advance_correct as a statement about the whole loop (cursor of pass k = period k); proved: "
